@@ -31,6 +31,78 @@ func runC12(p *Prog, l *Ledger) {
 	l.Rule("O4", "a waiter leaves the backlog only by its own give-up or together with the capacity handed to it (the C10/O5 evict-with-token rule on the same tree): nothing else removes a caller that is still blocked")
 	l.NotCovered = []string{"instantaneous numeric equality 'reported size = number of blocked callers' in a concurrent history (the structural clauses are its necessary conditions)"}
 	importObligations(p, l, "C10", "O4", func(o *Obligation) bool { return o.Rule == "O5" && strings.Contains(o.Key, "evict-with-token") })
+	// who may take an element out of the backlog list: only an eviction function - the func() a push hands to its own
+	// caller (EvictFunc), which removes that caller's element - and what it calls. A sweep that removes other callers'
+	// elements (pruning "dead" waiters, compaction) takes out callers that are still blocked.
+	{
+		evictors := map[*ssa.Function]bool{}
+		for _, f := range p.Funcs {
+			if !p.InPkg(f, "limiter") {
+				continue
+			}
+			allInstrs(f, func(ins ssa.Instruction) {
+				mc, ok := ins.(*ssa.MakeClosure)
+				if !ok {
+					return
+				}
+				// the closure is (converted to) an EvictFunc, or returned by a function whose result is one
+				isEv := false
+				if nt, ok := mc.Type().(*types.Named); ok && nt.Obj().Name() == "EvictFunc" {
+					isEv = true
+				}
+				if refs := mc.Referrers(); refs != nil {
+					for _, r := range *refs {
+						switch x := r.(type) {
+						case *ssa.ChangeType:
+							if nt, ok := x.Type().(*types.Named); ok && nt.Obj().Name() == "EvictFunc" {
+								isEv = true
+							}
+						case *ssa.Return:
+							res := f.Signature.Results()
+							for i := 0; i < res.Len(); i++ {
+								if nt, ok := res.At(i).Type().(*types.Named); ok && nt.Obj().Name() == "EvictFunc" {
+									isEv = true
+								}
+								if _, isSig := res.At(i).Type().Underlying().(*types.Signature); isSig && res.Len() == 1 && f.Signature.Params().Len() >= 1 {
+									isEv = true // evictionFunc(e) func()
+								}
+							}
+						}
+					}
+				}
+				if isEv {
+					evictors[mc.Fn.(*ssa.Function)] = true
+				}
+			})
+		}
+		for i := 0; i < 2; i++ {
+			for g := range evictors {
+				allInstrs(g, func(ins ssa.Instruction) {
+					if c := p.CallOf(ins); c != nil && c.Static != nil && p.InModule(c.Static) {
+						evictors[c.Static] = true
+					}
+				})
+			}
+		}
+		var bad []string
+		n := 0
+		for _, f := range p.Funcs {
+			if !p.InPkg(f, "limiter") {
+				continue
+			}
+			allInstrs(f, func(ins ssa.Instruction) {
+				c := p.CallOf(ins)
+				if c == nil || !c.Is("(*container/list.List).Remove") {
+					return
+				}
+				n++
+				if !evictors[f] {
+					bad = append(bad, fmt.Sprintf("%s: an element is removed from the backlog list in %s, which is not the eviction function a caller was given for its own element", p.At(ins), p.Key(f)))
+				}
+			})
+		}
+		l.Check(len(bad) == 0 && n > 0, "O4", "limiter/backlog-removal-sites", "", fmt.Sprintf("%d list.Remove call site(s), all inside eviction functions", n), "a caller that is still blocked can be taken out of the backlog: it is no longer counted and cannot be served", bad...)
+	}
 	locks := p.Locksets()
 	lis := p.coreNamed("Listener")
 
@@ -315,6 +387,11 @@ func runC12(p *Prog, l *Ledger) {
 					if ev != 0 {
 						bad2 = append(bad2, "the hand-off path evicts again (the sender already evicted the element)")
 					}
+				case chosen < 0:
+					// the path leaves after the enqueue without having waited at all
+					if ev != 1 {
+						bad2 = append(bad2, fmt.Sprintf("a path returns after the enqueue without reaching the wait and evicts the caller's element %d times (want exactly once): a caller that has left stays listed, keeps its place in line and is handed capacity nobody will use: %s", ev, joinWitness(p.DescribePath(pa))))
+					}
 				case chosen >= 0:
 					if ev != 1 {
 						bad2 = append(bad2, fmt.Sprintf("a give-up path (select case %d) evicts the caller's element %d times (want exactly once): the caller %s", chosen, ev, map[bool]string{true: "stays listed in the backlog after its Acquire returned", false: "is evicted twice"}[ev == 0]))
@@ -489,8 +566,66 @@ func c12BoundFromConfig(p *Prog, nt *types.Named, bound FieldRef) string {
 		if !after {
 			return "the backlog bound is read from the raw (un-defaulted) configuration"
 		}
+		// the defaulting leaves a positive size on every path: a negative one converted to the unsigned bound is ~2^64
+		if dc := p.CallOf(def); dc != nil && dc.Static != nil {
+			if why := fieldPositiveAfter(p, dc.Static, fr); why != "" {
+				return why
+			}
+		}
 	}
 	return ""
+}
+
+// fieldPositiveAfter: on every returning path of the defaulting method g, field fr of its receiver ends up >= 1: the last
+// store on the path is a positive constant, or the path never writes it and has established field > 0 / field >= 1.
+func fieldPositiveAfter(p *Prog, g *ssa.Function, fr FieldRef) string {
+	if g == nil || len(g.Params) == 0 || g.Blocks == nil {
+		return "cannot read the defaulting method"
+	}
+	recv := g.Params[0]
+	why := ""
+	n := 0
+	EnumPaths(g, 100000, func(pa *Path) bool {
+		if !pa.IsReturn() {
+			return true
+		}
+		n++
+		var last ssa.Value
+		pa.Each(func(step int, ins ssa.Instruction) bool {
+			if st, ok := ins.(*ssa.Store); ok {
+				if fa, ok := st.Addr.(*ssa.FieldAddr); ok {
+					if f2, base, ok := fieldOf(fa); ok && sameField(f2, fr) && AccessPath(base).Root == ssa.Value(recv) {
+						last = pa.Resolve(st.Val, step)
+					}
+				}
+			}
+			return true
+		})
+		if last != nil {
+			if k, isC := constInt(strip(last, true)); isC && k >= 1 {
+				return true
+			}
+			why = fmt.Sprintf("%s stores a value into %s that is not a positive constant", p.Key(g), fr.Name)
+			return false
+		}
+		pos := pa.HoldsRel(-1, func(r Rel) bool {
+			f2, base, ok := loadedField(strip(r.X, true))
+			if !ok || !sameField(f2, fr) || AccessPath(base).Root != ssa.Value(recv) {
+				return false
+			}
+			k, isC := constInt(strip(r.Y, true))
+			return isC && ((r.Op == token.GTR && k >= 0) || (r.Op == token.GEQ && k >= 1))
+		})
+		if !pos {
+			why = fmt.Sprintf("%s can leave %s zero or negative (%s); converted to the unsigned bound a negative size is about 2^64: the backlog is unbounded", p.Key(g), fr.Name, joinWitness(p.DescribePath(pa)))
+			return false
+		}
+		return true
+	})
+	if n == 0 && why == "" {
+		why = "the defaulting method has no returning path"
+	}
+	return why
 }
 
 // c12CallsParamOnce: function g calls its parameter #i (a func()) exactly once on every returning path.
